@@ -37,10 +37,13 @@ pub fn maybe_child_main() {
 /// file description descriptor 0 had at start-up (-1 if it is not seekable).
 fn probe_real<S: ShellSystem>(env: &mut Env<S>, args: Vec<Field>) -> Pin<Box<dyn Future<Output = BResult> + '_>> {
     Box::pin(async move {
-        let a: Vec<String> = args.iter().map(|f| f.value.clone()).collect();
+        let a: Vec<String> = args.iter().map(|f| crate::scen::esc(&f.value)).collect();
         let fd = SCRIPT_FD.load(Ordering::SeqCst);
         let off: i64 = if fd >= 0 { unsafe { libc::lseek(fd, 0, libc::SEEK_CUR) as i64 } } else { -1 };
-        push_event(json!({"ev": "probe", "args": a, "st": env.exit_status.0, "off": off}));
+        // O_NONBLOCK of the open file description descriptor 0 had at start-up
+        let fl = if fd >= 0 { unsafe { libc::fcntl(fd, libc::F_GETFL) } } else { -1 };
+        let nb = if fl < 0 { -1 } else { ((fl & libc::O_NONBLOCK) != 0) as i32 };
+        push_event(json!({"ev": "probe", "args": a, "st": env.exit_status.0, "off": off, "nb": nb}));
         BResult::new(env.exit_status)
     })
 }
@@ -80,8 +83,8 @@ fn child_main() -> ! {
 #[derive(Clone, Debug)]
 pub enum RMode {
     File,
-    /// chunk size in bytes, 0 = whole script in one write
-    Pipe(usize),
+    /// chunk size in bytes, 0 = whole script in one write; the read end starts with O_NONBLOCK set?
+    Pipe(usize, bool),
     CmdString,
     Dot,
 }
@@ -90,8 +93,8 @@ impl RMode {
     pub fn name(&self) -> String {
         match self {
             RMode::File => "real:file".into(),
-            RMode::Pipe(0) => "real:pipewhole".into(),
-            RMode::Pipe(c) => format!("real:pipe{c}"),
+            RMode::Pipe(0, nb) => format!("real:pipewhole{}", if *nb { "nb" } else { "" }),
+            RMode::Pipe(c, nb) => format!("real:pipe{c}{}", if *nb { "nb" } else { "" }),
             RMode::CmdString => "real:-c".into(),
             RMode::Dot => "real:dot".into(),
         }
@@ -131,7 +134,7 @@ fn run_once(sc: &Scenario, mode: &RMode, limit: Duration) -> Obs {
     let dir = root.join("d");
     std::fs::create_dir_all(&dir).expect("scratch dir");
     let script = sc.script();
-    let script_str = String::from_utf8(script.clone()).unwrap();
+    let script_str = String::from_utf8_lossy(&script).into_owned();
     let stdin_path = root.join("stdin");
     let stdin_content: Vec<u8> = if sc.feed == "str" { b"d1\nd2\n".to_vec() } else { script.clone() };
     std::fs::File::create(&stdin_path).unwrap().write_all(&stdin_content).unwrap();
@@ -141,7 +144,7 @@ fn run_once(sc: &Scenario, mode: &RMode, limit: Duration) -> Obs {
     let exe = std::env::current_exe().expect("current_exe");
     let mut cmd = Command::new(exe);
     match mode {
-        RMode::File | RMode::Pipe(_) => {}
+        RMode::File | RMode::Pipe(..) => {}
         RMode::CmdString => {
             cmd.arg("-c").arg(&script_str);
         }
@@ -158,9 +161,24 @@ fn run_once(sc: &Scenario, mode: &RMode, limit: Duration) -> Obs {
         .env("YV_EVENTS", &ev_path)
         .stdout(Stdio::from(std::fs::File::create(&out_path).unwrap()))
         .stderr(Stdio::from(std::fs::File::create(&err_path).unwrap()));
+    // (write end, a second descriptor for the read end's open file description)
+    let mut pipe_ends: Option<(std::fs::File, std::fs::File)> = None;
     match mode {
-        RMode::Pipe(_) => {
-            cmd.stdin(Stdio::piped());
+        RMode::Pipe(_, nonblock) => {
+            use std::os::fd::FromRawFd as _;
+            let mut fds = [0 as libc::c_int; 2];
+            let rc = unsafe { libc::pipe2(fds.as_mut_ptr(), libc::O_CLOEXEC) };
+            assert_eq!(rc, 0, "pipe2");
+            if *nonblock {
+                // what a parent that used the pipe in non-blocking mode leaves behind
+                unsafe { libc::fcntl(fds[0], libc::F_SETFL, libc::O_NONBLOCK) };
+            }
+            let keep = unsafe { libc::fcntl(fds[0], libc::F_DUPFD_CLOEXEC, 3) };
+            let (rd, wr, keep) = unsafe {
+                (std::fs::File::from_raw_fd(fds[0]), std::fs::File::from_raw_fd(fds[1]), std::fs::File::from_raw_fd(keep))
+            };
+            cmd.stdin(Stdio::from(rd));
+            pipe_ends = Some((wr, keep));
         }
         _ => {
             cmd.stdin(Stdio::from(std::fs::File::open(&stdin_path).unwrap()));
@@ -171,8 +189,11 @@ fn run_once(sc: &Scenario, mode: &RMode, limit: Duration) -> Obs {
         cmd.process_group(0);
     }
     let mut child = cmd.spawn().expect("spawn shell child");
-    let feeder = if let RMode::Pipe(chunk) = mode {
-        let mut w = child.stdin.take().expect("stdin pipe");
+    drop(cmd); // closes the parent's copy of the read end
+    let mut keep_rd = None;
+    let feeder = if let RMode::Pipe(chunk, _) = mode {
+        let (mut w, keep) = pipe_ends.take().expect("pipe ends");
+        keep_rd = Some(keep);
         let chunk = *chunk;
         let data = script.clone();
         Some(std::thread::spawn(move || {
@@ -227,11 +248,23 @@ fn run_once(sc: &Scenario, mode: &RMode, limit: Duration) -> Obs {
         .lines()
         .filter_map(|l| serde_json::from_str(l).ok())
         .collect();
+    let mut nbmax = -1;
+    if let Some(keep) = &keep_rd {
+        use std::os::fd::AsRawFd as _;
+        let fl = unsafe { libc::fcntl(keep.as_raw_fd(), libc::F_GETFL) };
+        nbmax = ((fl & libc::O_NONBLOCK) != 0) as i32;
+        for e in &events {
+            if e["ev"] == "probe" {
+                nbmax = nbmax.max(e["nb"].as_i64().unwrap_or(-1) as i32);
+            }
+        }
+    }
     let obs = Obs {
+        nbmax,
         outcome: if timed_out { "timeout".into() } else { "completed".into() },
         trace: events_to_trace(&events),
         status: code,
-        stderr: String::from_utf8_lossy(&std::fs::read(&err_path).unwrap_or_default()).into_owned(),
+        stderr: crate::scen::esc(&String::from_utf8_lossy(&std::fs::read(&err_path).unwrap_or_default())),
         stdout: String::from_utf8_lossy(&std::fs::read(&out_path).unwrap_or_default()).into_owned(),
     };
     let _ = std::fs::remove_dir_all(&root);
